@@ -1,4 +1,5 @@
 fn main() {
+    println!("cargo::rustc-check-cfg=cfg(cooklang_verif)");
     #[cfg(feature = "bundled_units")]
     {
         println!("cargo::rerun-if-changed=units.toml");
